@@ -473,8 +473,7 @@ def tile_multi_tan_getparser(parser):
         "--hdu-index",
         metavar="INDEX",
         type=int,
-        default=0,
-        help="Which HDU to load in each input FITS file",
+        help="Which HDU to load in each input FITS file (default: the first HDU with image data)",
     )
     parser.add_argument(
         "--wcs-key",
